@@ -368,6 +368,10 @@ func (db *RockDB) SRem(ts int64, key []byte, args ...[]byte) (int64, error) {
 	if err != nil {
 		return 0, err
 	}
+	if keyInfo.IsNotExistOrExpired() {
+		// the members of an expired set are dead, nothing can be removed from it
+		return 0, nil
+	}
 	table := keyInfo.Table
 	rk := keyInfo.VerKey
 	oldh := keyInfo.OldHeader
